@@ -1,6 +1,8 @@
 (* C13 Exec: the checkers evaluated by vm_compute on (history, observed Get results). *)
-From God Require Import Base.Prelude C13.Model C13.Spec.
+From God Require Import Base.Prelude C13.Spec.
+From God Require Export C13.Model.   (* gval constructors appear in the encoded cases *)
 From GodGen Require C13_Gen.
+Require Coq.Strings.String.
 Local Open Scope N_scope.
 
 Inductive xop := XAdd (n : nat) | XAddW (n w : nat) | XAddR (n r : nat) | XRemove (n : nat).
@@ -12,8 +14,18 @@ Record hcase := mkcase {
   c_vh : list (nat * list N);       (* node |-> hash of its i-th virtual node, i < cap *)
   c_probes : list (N * N);          (* (hash of probe key, hash of its inner repr) *)
   c_results : list (list (option nat)); (* observed: per op, Get of every probe (None = absent) *)
-  c_balance_tol : nat               (* 0: no balance test; t > 0: final shares within t percent of weight share *)
+  c_balance_tol : nat;              (* 0: no balance test; t > 0: final shares within t percent of weight share *)
+  (* keys and nodes as Go values (every key / node TYPE) *)
+  c_keys : list gval;               (* the probe keys as Go values, same order as c_probes *)
+  c_krepr : list (option string);   (* observed hash.repr(key); None = the call panicked *)
+  c_nodes : list (nat * gval);      (* node id |-> the Go value handed to Add* / Remove *)
+  c_nrepr : list (nat * option string); (* observed hash.repr(node) *)
+  c_gpanic : list (list bool);      (* observed: per op, per probe: Get panicked (its c_results entry is None) *)
+  c_oppanic : list bool;            (* observed: per op: Add* / Remove panicked *)
+  c_final : nat * nat               (* observed len(h.keys), len(h.ring) after the last op *)
 }.
+
+Definition optnat_eqb := option_eqb Nat.eqb.
 
 Definition min_replicas : nat := Z.to_nat C13_Gen.minReplicas.
 Definition top_weight : nat := Z.to_nat C13_Gen.TopWeight.
@@ -47,19 +59,58 @@ Fixpoint all2 {A B} (f : A -> B -> bool) (l1 : list A) (l2 : list B) : bool :=
   end.
 
 (* --- model agreement: the transcription of the Go code gives exactly the observed answers --- *)
-Fixpoint model_rows (vh : nat -> nat -> N) (probes : list (N * N)) (s : st) (ops : list op)
-         (rows : list (list (option nat))) : bool :=
-  match ops, rows with
-  | [], [] => true
-  | o :: ops', row :: rows' =>
-      let s' := step vh s o in
-      all2 (fun pr ob => res_eqb (get s' (fst pr) (snd pr)) ob) probes row && model_rows vh probes s' ops' rows'
+Definition ostr_eqb := option_eqb String.eqb.
+
+Definition res_eqb3 (r : result (option nat)) (ob : option nat * bool) : bool :=
+  match r, ob with
+  | Panic, (None, true) => true
+  | Ok x, (o, false) => res_eqb (Ok x) o
   | _, _ => false
   end.
 
+Definition repr_eqb (r : result string) (o : option string) : bool :=
+  match r, o with
+  | Ok a, Some b => String.eqb a b
+  | Panic, None => true
+  | _, _ => false
+  end.
+
+(* Get on the key VALUE: repr through the model of lang.Repr, its hash as tabulated by the driver *)
+Definition model_get (s : st) (pk : (N * N) * gval) : result (option nat) :=
+  get_key (fun _ => fst (fst pk)) s (snd pk) (snd (fst pk)).
+
+Fixpoint model_rows (vh : nat -> nat -> N) (probes : list ((N * N) * gval)) (s : st) (ops : list op)
+         (rows : list (list (option nat * bool))) : option st :=
+  match ops, rows with
+  | [], [] => Some s
+  | o :: ops', row :: rows' =>
+      let s' := step vh s o in
+      if all2 (fun pk ob => res_eqb3 (model_get s' pk) ob) probes row then model_rows vh probes s' ops' rows' else None
+  | _, _ => None
+  end.
+
+Definition zip_rows (c : hcase) : list (list (option nat * bool)) :=
+  map (fun rp => combine (fst rp) (snd rp)) (combine (c_results c) (c_gpanic c)).
+
+Definition shape_ok (c : hcase) : bool :=
+  Nat.eqb (List.length (c_keys c)) (List.length (c_probes c)) &&
+  Nat.eqb (List.length (c_krepr c)) (List.length (c_probes c)) &&
+  Nat.eqb (List.length (c_gpanic c)) (List.length (c_results c)) &&
+  Nat.eqb (List.length (c_oppanic c)) (List.length (c_results c)) &&
+  all2 (fun r p => Nat.eqb (List.length r) (List.length p)) (c_results c) (c_gpanic c).
+
 Definition ring_model_ok (c : hcase) : bool :=
   let cap := cap_of c in
-  model_rows (vh_of c) (c_probes c) (init cap) (map (to_op cap) (c_ops c)) (c_results c).
+  shape_ok c &&
+  (* lang.Repr as transcribed gives the observed representation of every key and node *)
+  all2 (fun k o => repr_eqb (repr k) o) (c_keys c) (c_krepr c) &&
+  all2 (fun ng no => Nat.eqb (fst ng) (fst no) && repr_eqb (repr (snd ng)) (snd no)) (c_nodes c) (c_nrepr c) &&
+  (* the model's nodes never make Add* / Remove panic *)
+  forallb negb (c_oppanic c) &&
+  match model_rows (vh_of c) (combine (c_probes c) (c_keys c)) (init cap) (map (to_op cap) (c_ops c)) (zip_rows c) with
+  | Some s => Nat.eqb (List.length (keys s)) (fst (c_final c)) && Nat.eqb (List.length (ring s)) (snd (c_final c))
+  | None => false
+  end.
 
 (* --- the Spec's owner as a function: cyclic minimum over the abstract ring --- *)
 Definition cyc_ltb (x p q : N) : bool :=
@@ -127,9 +178,29 @@ Definition balance_ok (tol : nat) (m : members) (row : list (option nat)) : bool
     let slack := keys * N.of_nat (snd nr) * N.of_nat tol in
     (got <=? want + slack) && (want <=? got + slack)) m.
 
+(* values with the same text are the same key: one answer per text in every row *)
+Fixpoint same_text_row (ks : list gval) (row : list (option nat)) (seen : list (string * option nat)) : bool :=
+  match ks, row with
+  | k :: ks', ob :: row' =>
+      let t := text_of k in
+      match alookup String.eqb t seen with
+      | Some ob' => optnat_eqb ob ob' && same_text_row ks' row' seen
+      | None => same_text_row ks' row' ((t, ob) :: seen)
+      end
+  | _, _ => true
+  end.
+
+(* nothing panicked: no Get on any key value, no Add* / Remove on any node value, no repr *)
+Definition no_panic_ok (c : hcase) : bool :=
+  forallb (forallb negb) (c_gpanic c) && forallb negb (c_oppanic c) &&
+  forallb (fun o => match o with Some _ => true | None => false end) (c_krepr c) &&
+  forallb (fun no => match snd no with Some _ => true | None => false end) (c_nrepr c).
+
 Definition ring_spec_ok (c : hcase) : bool :=
   let cap := cap_of c in
   let ops := map (to_op cap) (c_ops c) in
+  shape_ok c && no_panic_ok c &&
+  forallb (fun row => same_text_row (c_keys c) row []) (c_results c) &&
   spec_rows (vh_of c) cap (c_probes c) [] (map (fun _ => None) (c_probes c)) ops (c_results c) &&
   match c_balance_tol c with
   | O => true
@@ -152,8 +223,6 @@ Inductive case :=
 | CH (h : hcase)
 | CX (weights : list nat) (got ref : list (option nat))
 | CF (got ref : list N).
-
-Definition optnat_eqb := option_eqb Nat.eqb.
 
 Definition dispatch_ok (weights : list nat) (got ref : list (option nat)) : bool :=
   list_eqb optnat_eqb got ref &&
